@@ -93,3 +93,116 @@ def check_xor(test: ast.AST, matched: str, inverted: str) -> Optional[bool]:
         return None
     return all(tt[(m, i)] == (m != i)
                for m in (False, True) for i in (False, True))
+
+
+def unjudged_loops(fi: FuncInfo, data: str
+                   ) -> List[Tuple[ast.For, str, bool]]:
+    """For every loop over the children of ``data`` in ``fi``: (loop, child
+    variable, every path through one iteration *judges* the child).
+
+    Judged means: a (matched XOR inverted) test is evaluated, or a result
+    record built from the child (``NodeCoords(child, ...)``) is yielded or
+    put into a collection.  A path that leaves the iteration without either
+    drops the candidate from the result *and* from its complement, so the
+    inverted query is no longer the complement of the plain one."""
+    from sa.flow import Flow
+    sites = {id(s[0]) for s in match_sites(fi)
+             if check_xor(s[1], s[2], s[3])}
+    out: List[Tuple[ast.For, str, bool]] = []
+    for loop in walk_local(fi.node):
+        if not isinstance(loop, ast.For):
+            continue
+        it = src(loop.iter)
+        if it not in ("enumerate({})".format(data), "{}.items()".format(data),
+                      data, "{}.non_merged_items()".format(data)):
+            continue
+        tgt = loop.target
+        names = [src(e) for e in tgt.elts] if isinstance(tgt, ast.Tuple) \
+            else [src(tgt)]
+        child = names[-1]
+        # locals derived from the child inside the body (unwrapped element)
+        for n in walk_local(loop):
+            if isinstance(n, ast.Assign) and len(n.targets) == 1 and \
+                    isinstance(n.targets[0], ast.Name) and \
+                    isinstance(n.value, ast.Call) and n.value.args and \
+                    src(n.value.args[0]) == child and \
+                    src(n.value.func).endswith("unwrap_node_coords"):
+                names = names + [n.targets[0].id]
+
+        def records(stmt: ast.AST, names=names) -> bool:
+            for c in ast.walk(stmt):
+                if isinstance(c, ast.Call) and src(c.func) == "NodeCoords" \
+                        and c.args and any(
+                            isinstance(x, ast.Name) and x.id in names
+                            for x in ast.walk(c.args[0])):
+                    return True
+            return False
+
+        def transfer(stmt: ast.stmt, st, flow):
+            if records(stmt):
+                return [True]
+            if isinstance(stmt, ast.Assign) and id(stmt) in sites:
+                return [True]
+            return [st]
+
+        def branch(test: ast.AST, st, flow):
+            from sa.model import parent
+            p = parent(test)
+            if p is not None and id(p) in sites:
+                return [True], [True]
+            return [st], [st]
+        res = Flow(transfer, branch).run(loop.body, [False])
+        ends = list(res.fall) + list(res.continues) + list(res.breaks) + \
+            [st for st, _ in res.returns]
+        out.append((loop, child, bool(ends) and all(ends)))
+    return out
+
+
+def lone_match_tests(fi: FuncInfo) -> List[ast.AST]:
+    """Tests that consult the result of a comparison (a variable assigned
+    from ``search_matches``) without the inversion flag: deciding on the
+    raw match alone is only right for a search that is never inverted."""
+    matched = set()
+    for n in walk_local(fi.node):
+        if isinstance(n, ast.Assign) and isinstance(n.targets[0], ast.Name):
+            if any(isinstance(c, ast.Call) and
+                   src(c.func).endswith("search_matches")
+                   for c in ast.walk(n.value)):
+                matched.add(n.targets[0].id)
+    inv = inversion_atoms(fi)
+    out: List[ast.AST] = []
+    for n in walk_local(fi.node):
+        test = None
+        if isinstance(n, (ast.If, ast.IfExp, ast.While)):
+            test = n.test
+        if test is None:
+            continue
+        names = {x.id for x in ast.walk(test) if isinstance(x, ast.Name)}
+        if names & matched and not (names & set(inv)):
+            from sa.views import _in_message
+            if isinstance(n, ast.IfExp) and _in_message(n, fi.node):
+                continue    # wording of a log message
+            out.append(n)
+    return out
+
+
+def exhausting_loops(fi: FuncInfo, data: str
+                     ) -> List[Tuple[ast.For, List[ast.AST]]]:
+    """(loop over the children of ``data``, early exits bound to it)."""
+    from sa.model import ancestors
+    out = []
+    for loop in walk_local(fi.node):
+        if not isinstance(loop, ast.For):
+            continue
+        it = src(loop.iter)
+        if it not in ("enumerate({})".format(data), "{}.items()".format(data),
+                      data, "{}.non_merged_items()".format(data)) and \
+                not it.startswith("range("):
+            continue
+        exits = [b for b in walk_local(loop)
+                 if isinstance(b, (ast.Break, ast.Return)) and
+                 next((a for a in ancestors(b)
+                       if isinstance(a, (ast.For, ast.While))), None) is loop]
+        out.append((loop, exits))
+    return out
+
